@@ -109,7 +109,10 @@ CLAIMS.update({
               'replacement are in range (rule_in_range); the pass is item-wise and leaves every non-instruction item alone '
               '(compress_pass_itemwise, data_unchanged, compressBody_instr); a decision taken on a label-free immediate stays sound under any '
               'other label table and position (literal_decision_stable), a decision that re-evaluates to true at the final values is sound '
-              'there (stable_item_sound). NOT a theorem: the composition over two whole runs (-c off / on carry different label tables; the '
+              'there (stable_item_sound). Program level, single run: assemble_compressed_literal_sound - in every successful -c assembly each 2-byte '
+              'instruction of the output either stood compressed in the source or comes from a compression decision on a 32-bit instruction, and '
+              'if that instruction has label-free immediates the two bytes at its offset decode to a legal compressed instruction that '
+              'executes like it (at the final tables). NOT a theorem: the composition over two whole runs (-c off / on carry different label tables; the '
               'statement compress_same_ops_statement is kept as a def) - that part is explored: every instruction line of every generated '
               'program is assembled both ways by the real assembler and both encodings are executed by the Lean specification from 8 register '
               'files; registers written, stores and the control-transfer target (mapped through both label tables) must agree, data bytes '
@@ -151,7 +154,10 @@ CLAIMS.update({
               'encoder, if the RVC specification says i is the expansion of a legal non-hint compressed instruction then some criterion '
               'matches (18 per-mnemonic theorems + umbrella; firstMatch_decides reduces the model\'s predicate evaluation to a numeric one); '
               'first_match_is_16bit / matched_has_form - a match always produces a 2-byte replacement of a 4-byte instruction; '
-              'compress_never_grows - no item of the pass grows; padTo_mono - alignment padding cannot make a later offset overtake. NOT a '
+              'compress_never_grows - no item of the pass grows; padTo_mono - alignment padding cannot make a later offset overtake; '
+              'assemble_no_eligible_literal_left - at PROGRAM level: in the final output of every successful -c assembly no instruction with '
+              'label-free immediates that stayed 32-bit is the expansion of a legal RVC instruction (resolution, encoding and decoding read '
+              'off the run itself). NOT a '
               'theorem: the induction over whole programs that labels and total length do not grow (nothing_grows_statement kept as a '
               'def); explored: for every literal-operand instruction line the Lean specification decides eligibility of the word emitted '
               'without -c and the -c build must emit 2 bytes; binary length and every label offset with -c must not exceed those without. '
